@@ -14,7 +14,7 @@ RULE = ('random base arrays (1-4 axes, 0-7 elements per axis, element = C-order 
         '_simplify_index, chunk read sets of contiguous requests (1-3 stages incl. get_dask_array(index=...)).')
 ASSUMPTIONS = ['numpy outer indexing (np.take per axis) is the oracle; dask own slicing/take/cull/store are exercised, not modelled',
                'transforms of the correspondence: elementwise 2x+1 -> float64, x[..., 0], elementwise -x -> int32',
-               'read sets are compared only for requests whose composed region is non-empty on every axis (F21 otherwise)']
+               'read sets are compared only for requests whose composed region is non-empty on every axis (F34 otherwise)']
 
 DTYPES = {0: np.dtype('int64'), 1: np.dtype('float64'), 2: np.dtype('int32')}
 F20_SIG = 'slice(step<0,start<-n);symptom=wrong_data'
